@@ -242,8 +242,12 @@ def check_case(case):
             p_ = os.path.join(d, rfs[-1])
             with open(p_, "rb") as fh:
                 good = pickle.load(fh)
+            # (the surplus entry is a copy of the last one, or a falsy value)
+            extra = (tuple(good[-1:]), (0.0,), (None,))[
+                ((case["clean_up"] is True) + 2 * (case["clean_up"] is None)
+                 + case["wait"] + case["allow_incomplete"]) % 3]
             with open(p_, "wb") as fh:
-                pickle.dump(tuple(good) + tuple(good[-1:]), fh)
+                pickle.dump(tuple(good) + extra, fh)
         pre = crop_tree(d)
         try:
             res = env.reap()
